@@ -1902,7 +1902,12 @@ class ParMapDataset(MapDataset):
             return lazy_parallel_map(
                 functools.partial(
                     self._with_key_map_function, func=self.map_function),
-                self.input_dataset.__iter__(with_key=True),
+                # Pass an iterable and not an iterator: The iterator is then
+                # created (and in case of an exception finalized) inside
+                # lazy_parallel_map. Otherwise, an exception of the map
+                # function keeps the input iterator alive (it is referenced by
+                # the traceback), e.g. the thread of a prefetch is not stopped.
+                self.input_dataset.items(),
                 buffer_size=self.buffer_size,
                 max_workers=self.num_workers,
                 backend=self.backend,
